@@ -93,6 +93,43 @@ def gen_random(info, rng, count, maxlen=60):
     return out
 
 
+def gen_brackets(rng, count, maxlen=6):
+    """bracket discipline: every string over ( ) [ ] up to `maxlen` characters (balanced, unbalanced and CROSSED closers such as
+    ([)] alike), then `count` longer ones: a balanced two-kind bracket word with fillers, in half of which two closers of
+    different kinds are swapped or one closer changes its kind (counts per kind stay plausible, the nesting does not)."""
+    out = [[]]
+    frontier = [[]]
+    for _ in range(maxlen):
+        frontier = [p + [c] for p in frontier for c in (40, 41, 91, 93)]
+        out.extend(frontier)
+    fill = [[97], [32], [97, 44, 98], [49], [39, 41, 39], [96, 93, 96], []]
+    for _ in range(count):
+        s, stack, closers = [], [], []
+        for _ in range(rng.randint(2, 12)):
+            r = rng.random()
+            if r < 0.45 or not stack:
+                k = rng.choice((40, 91))
+                stack.append(41 if k == 40 else 93)
+                s.append(k)
+            else:
+                closers.append(len(s))
+                s.append(stack.pop())
+            if rng.random() < 0.4:
+                s.extend(rng.choice(fill))
+        while stack:
+            closers.append(len(s))
+            s.append(stack.pop())
+        m = rng.random()
+        if m < 0.35 and len(closers) >= 2:
+            i, j = rng.sample(closers, 2)
+            s[i], s[j] = s[j], s[i]
+        elif m < 0.5 and closers:
+            i = rng.choice(closers)
+            s[i] = 41 if s[i] == 93 else 93
+        out.append(s)
+    return out
+
+
 def lex_request(cps, mb, flags):
     return "LEX %d %d %s" % (1 if mb else 0, flags, " ".join(map(str, cps)))
 
